@@ -200,6 +200,8 @@ def check(an: Analysis) -> None:
             reach = g.reachable([rh_entry], skip_edge=lambda a, b, lab: sc.skip(a, b, lab) or lab in ("exc", "reraise"))
             for sn in [n for n in sleeps if n.id in reach]:
                 arg = unwrap(sn.ast.args[0]) if sn.ast.args else None  # type: ignore[union-attr]
+                if isinstance(arg, ast.Name) and (vals_ := sc.reaching_values(sn, arg.id)) and len(vals_) == 1:
+                    arg = unwrap(vals_[0])  # the value computed for this kind of delay (e.g. by an inlined helper)
                 ob7.inst(f, sn.ast, f"delay is {label}")
                 if value is A_FUNC:
                     ok = isinstance(arg, ast.Call) and d.origins(arg.func) <= {"param:delay"} and bool(d.origins(arg.func)) and len(arg.args) == 2 and not arg.keywords and is_name(arg.args[1], exc_name or "")
